@@ -1505,6 +1505,9 @@ type Churn struct {
 	voters []*User
 	step   int
 	waitTo int
+	// unregFirst: the candidate unregisters while still voted for and is dropped
+	// when its last voter leaves (the other order drops it at unregistration)
+	unregFirst bool
 }
 
 // NewChurn picks a candidate with known voters (nil if none fits).
@@ -1514,7 +1517,7 @@ func (p *Producer) NewChurn() *Churn {
 		return nil
 	}
 	c := cs[p.R.Intn(len(cs))]
-	ch := &Churn{p: p, c: c}
+	ch := &Churn{p: p, c: c, unregFirst: p.R.Intn(2) == 0}
 	for _, u := range p.Users {
 		st := p.BC.GetStorageItem(nativeids.NeoToken, append([]byte{20}, u.Hash().BytesBE()...))
 		if st == nil || u.Blocked {
@@ -1545,6 +1548,11 @@ func (ch *Churn) Next(next int) (*transaction.Transaction, bool) {
 		}
 	}
 	switch {
+	case ch.unregFirst && ch.step == 0:
+		return p.Call("churn-unregister-while-voted", []neotest.Signer{ch.c.S}, p.NeoH, "unregisterCandidate", ch.c.Acc.PublicKey().Bytes()), false
+	case ch.unregFirst && ch.step <= nv:
+		v := ch.voters[ch.step-1]
+		return p.Call("churn-unvote-unregistered", []neotest.Signer{v.S}, p.NeoH, "vote", v.Hash(), nil), false
 	case ch.step < nv:
 		v := ch.voters[ch.step]
 		return p.Call("churn-unvote", []neotest.Signer{v.S}, p.NeoH, "vote", v.Hash(), nil), false
